@@ -24,9 +24,11 @@ pub const SOURCES: [(&str, &[&str], bool); 8] = [
     // three sources are multi-line CR LF texts (a checkout with autocrlf): a buffer that a line-end normalisation
     // would shrink, also for a root file that does not parse
     ("fragment F on T {\r\n  x\r\n}\r\n", &[], true),
-    ("#import * from \"./a.graphql\"\nfragment F on T { x }\n", &["./a.graphql"], true),
+    // sources 3 and 5 open with a comment of two-byte characters that starts at an odd / an even byte offset, so that
+    // every byte offset from 2 to 80 lies inside a character in one of them
+    ("#éééééééééééééééééééééééééééééééééééééééé\n#import * from \"./a.graphql\"\nfragment F on T { x }\n", &["./a.graphql"], true),
     ("query Q {\r\n  a\r\n", &[], false),
-    ("#import * from \"./sub/c.graphql\"\r\n#import * from \"./b.graphql\"\r\nquery R {\r\n  r\r\n}\r\nfragment G on T { y }\r\n", &["./sub/c.graphql", "./b.graphql"], true),
+    ("# éééééééééééééééééééééééééééééééééééééééé\r\n#import * from \"./sub/c.graphql\"\r\n#import * from \"./b.graphql\"\r\nquery R {\r\n  r\r\n}\r\nfragment G on T { y }\r\n", &["./sub/c.graphql", "./b.graphql"], true),
     // same names as 2 and 0 with other bodies: re-supplying a file changes the module (explicit-call families only)
     ("fragment F on T { y z }\n", &[], true),
     ("query Q { b }\n", &[], true),
@@ -352,7 +354,18 @@ fn check_history_here(ops: &[Op], probe_every_step: bool) -> Result<J, (String, 
 pub fn child() -> i32 {
     crate::worker::serve(|req| {
         let ops: Vec<Op> = req["ops"].as_array().map(|a| a.iter().map(op_from).collect()).unwrap_or_default();
-        match check_history(ops, req["probes"].as_str() != Some("end-only")) {
+        // the loader's debug mode (`init(1)`, NITROGQL_DEBUG in the bundler plugins): once per process; every call then
+        // formats its log line, and the log is drained after each history
+        static DEBUG_ON: std::sync::Once = std::sync::Once::new();
+        let debug = req["debug"].as_bool() == Some(true);
+        if debug {
+            DEBUG_ON.call_once(|| graphql_loader::init(1));
+        }
+        let r = check_history(ops, req["probes"].as_str() != Some("end-only"));
+        if debug {
+            graphql_loader::get_log();
+        }
+        match r {
             Ok(stats) => json!({"ok": stats}),
             Err((k, w)) => json!({"err": [k, w]}),
         }
@@ -441,6 +454,14 @@ pub fn run(args: &Args) -> i32 {
         )
     });
     let mut plans: Vec<(&str, Vec<Op>, usize, bool)> = plans.into_iter().map(|(n, a, d)| (n, a, d, false)).collect();
+    // the same engine with the loader in debug mode (worker processes of their own)
+    let debug_pool = Pool::new("c19", args.threads);
+    if args.quick() {
+        plans.push(("debug-log:2files-4sources-2tasks-depth3", alphabet(2, &[1, 2, 3, 5], 2, false), 3, false));
+    } else {
+        plans.push(("debug-log:3files-6sources-2tasks-depth3", alphabet(3, &all, 2, false), 3, false));
+        plans.push(("debug-log:2files-3sources-2tasks-depth4", alphabet(2, &[1, 3, 5], 2, false), 4, false));
+    }
     if asan_pool.is_some() {
         if args.quick() {
             plans.push(("asan:2files-5sources-2tasks-depth3", alphabet(2, &[1, 2, 3, 4, 5], 2, false), 3, true));
@@ -453,7 +474,8 @@ pub fn run(args: &Args) -> i32 {
     }
     let asan_histories = AtomicU64::new(0);
     for (name, alpha, depth, asan) in plans {
-        let pool: &Pool = if asan { asan_pool.as_ref().unwrap() } else { &pool };
+        let debug = name.starts_with("debug-log");
+        let pool: &Pool = if asan { asan_pool.as_ref().unwrap() } else if debug { &debug_pool } else { &pool };
         let a = alpha.len();
         let before = histories.load(Ordering::Relaxed);
         // only maximal-length histories are sent: every prefix is checked on the way
@@ -481,7 +503,7 @@ pub fn run(args: &Args) -> i32 {
                     asan_histories.fetch_add(1, Ordering::Relaxed);
                 }
                 let worker_pid = if asan { pool.pid(slot) } else { 0 };
-                let req = json!({"ops": ops.iter().map(op_json).collect::<Vec<_>>(), "probes": if name.starts_with("explicit-calls") { "end-only" } else { "every-step" }});
+                let req = json!({"ops": ops.iter().map(op_json).collect::<Vec<_>>(), "debug": debug, "probes": if name.starts_with("explicit-calls") { "end-only" } else { "every-step" }});
                 let case = || json!({"ops": ops.iter().map(op_json).collect::<Vec<_>>(), "shown": ops.iter().map(op_show).collect::<Vec<_>>(), "probes": if name.starts_with("explicit-calls") { "end-only" } else { "every-step" }});
                 match pool.ask(slot, &req) {
                     Answer::Done(v) => {
